@@ -1,17 +1,24 @@
-import SpecVerif.Model.C06
+import SpecVerif.Model.C06H
 /-!
 Line-protocol driver for the C06 correspondence: evaluates the very
 definitions of `SpecVerif.C06` that the theorems of `Props/C06.lean` are about.
 
 Input (one command per line, tokens separated by single spaces):
-  attr <name>                                   start a case: attribute never assigned
-  init <tok>*                                   content handed to the constructor (dict: `k=v`)
-  with <item> <index> <insert> <kwK> <kwA> <if>
-  update <voi> <new> <byidx> <kwK> <kwA> <if>
-  transform <voi> <fn> <byidx> <fnK> <fnA> <if>
-  without <voi> <byidx> <if>
-Value token: `_` (MISSING) | `i<int>` | `s<letters>` | `o<0|1>:<letters>:<int>` | `o2:<int>:<int>`.
-Output (one line per input line): `<ok|err Name> ;; <state>`.
+  attr <name> [<store> (missing | default <tok>*)]
+        a new bare instance of a holder class: how the instance keeps the attribute
+        (`dict` | `slot` | `computed` | `cached`, see `Store`) and what the attribute shows
+        before anything was assigned (MISSING, or the class default / the getter's content)
+  init <tok>*                                   a new instance constructed with that content (dict: `k=v`)
+  with <item> <index> <insert> <kwK> <kwA> <if> [<inplace>]
+  update <voi> <new> <byidx> <kwK> <kwA> <if> [<inplace>]
+  transform <voi> <fn> <byidx> <fnK> <fnA> <if> [<inplace>]
+  without <voi> <byidx> <if> [<inplace>]
+Value token: `_` (MISSING) | `i<int>` | `s<letters>` | `o<0|1>:<letters>:<int>` | `o2:<int>:<int>`,
+optionally followed by `@<label>`: the same labelled token twice (since the last `attr` / `init`) is the
+SAME object twice.
+Plain-list and dict attributes run on the model with object identity (`hSeqHelper` / `hMapHelper` on a heap
+of objects, `Model/C06H.lean`), every other family on the content model (`helperI` = `helper` behind `Inst`).
+Output (one line per input line): `<ok|err Name> ;; <what the attribute shows>`.
 -/
 open SpecVerif.Py SpecVerif.C06 SpecVerif
 
@@ -145,47 +152,238 @@ def showState : Option Coll → String
   | some (.set (.plain xs)) => showSorted xs
   | some (.set (.keyed d)) => showSortedPairs d
 
+/-- `tok@label` -> (`tok`, is labelled) -/
+def baseTok (s : String) : String := (s.splitOn "@").headD s
+def isLabelled (s : String) : Bool := (s.splitOn "@").length > 1
+
 structure St where
   cfg : AttrCfg
-  st : Option Coll
+  /-- the objects allocated since the last `attr` -/
+  hp : Heap := []
+  /-- labelled token -> its object (since the last `attr` / `init`) -/
+  labels : List (String × Nat) := []
+  /-- the instance, for a plain-list attribute (references) … -/
+  instH : Inst (List Nat) := {}
+  /-- … for a dict attribute (key -> reference) … -/
+  instD : Inst RDict := {}
+  /-- … and for every other family (content) -/
+  instV : Inst Coll := {}
+
+def St.isHeap (s : St) : Bool := s.cfg.fam == .list
+def St.isHeapD (s : St) : Bool := s.cfg.fam == .dict
+
+def St.shown (s : St) : String :=
+  if s.isHeap then
+    match s.instH.observe with
+    | none => "missing"
+    | some refs => showList (view s.hp refs)
+  else if s.isHeapD then
+    match s.instD.observe with
+    | none => "missing"
+    | some d => showDict (viewD s.hp d)
+  else showState s.instV.observe
+
+/-- the object a token denotes: a labelled token seen before is that object, anything else a new one -/
+def allocTok (s : St) (tok : String) : Option (St × Nat) := do
+  let v ← parseVal (baseTok tok)
+  if isLabelled tok then
+    match s.labels.lookup tok with
+    | some r => pure (s, r)
+    | none => pure ({ s with hp := s.hp ++ [v], labels := (tok, s.hp.length) :: s.labels }, s.hp.length)
+  else pure ({ s with hp := s.hp ++ [v] }, s.hp.length)
+
+def allocOpt (s : St) (tok : String) : Option (St × Option Nat) :=
+  if tok == "_" then some (s, none) else (allocTok s tok).map fun (s', r) => (s', some r)
 
 /-- content handed to the constructor: `prepare()` adds the items one by one -/
 def initOp (c : AttrCfg) (tok : String) : Option Op :=
   match c.fam with
   | .dict =>
-    match tok.splitOn "=" with
+    match (baseTok tok).splitOn "=" with
     | [k, v] => do
       let k ← parseVal k; let v ← parseVal v
       pure (.with_ (some v) (some k) false {})
     | _ => none
   | _ => do
-    let v ← parseVal tok
+    let v ← parseVal (baseTok tok)
     pure (.with_ (some v) none false {})
+
+/-- builds a container from tokens (objects are allocated in `s`) -/
+def buildH (s : St) (toks : List String) : Option (St × Except Err (List Nat)) :=
+  toks.foldlM (fun (acc : St × Except Err (List Nat)) tok =>
+    match acc with
+    | (s, .error e) => some (s, .error e)
+    | (s, .ok refs) => do
+      let (s', r) ← allocTok s tok
+      match hSeqStep s'.cfg s'.hp refs false (.with_ (some r) none false {}) with
+      | .error e => pure (s', .error e)
+      | .ok (hp', refs') => pure ({ s' with hp := hp' }, .ok refs')) (s, .ok [])
+
+/-- the same for a dict: tokens `k=v` -/
+def buildD (s : St) (toks : List String) : Option (St × Except Err RDict) :=
+  toks.foldlM (fun (acc : St × Except Err RDict) tok =>
+    match acc with
+    | (s, .error e) => some (s, .error e)
+    | (s, .ok d) =>
+      match tok.splitOn "=" with
+      | [k, v] => do
+        let (s1, kr) ← allocTok s k
+        let (s2, r) ← allocTok s1 v
+        match hMapStep s2.cfg s2.hp d false (.with_ (some r) (some kr) false {}) with
+        | .error e => pure (s2, .error e)
+        | .ok (hp', d') => pure ({ s2 with hp := hp' }, .ok d')
+      | _ => none) (s, .ok [])
+
+def buildV (c : AttrCfg) (toks : List String) : Option (Except Err Coll) := do
+  let ops ← toks.mapM (initOp c)
+  pure (ops.foldl (fun (acc : Except Err Coll) op =>
+    match acc with
+    | .error e => .error e
+    | .ok coll => stepColl c coll op) (.ok (create c)))
+
+def parseStore (s : String) : Option Store :=
+  if s == "dict" then some .dict else if s == "slot" then some .slot
+  else if s == "computed" then some (.computed false) else if s == "cached" then some (.computed true) else none
+
+/-- a bare instance: the default content is the instance's own copy of a class-level default (`dict`)
+or what the getter returns (`computed`) -/
+def bare {κ : Type} (store : Store) (dflt : Option κ) : Inst κ :=
+  match store with
+  | .dict => { store := store, own := dflt }
+  | .slot => { store := store, back := dflt }
+  | .computed _ => { store := store, dflt := dflt }
+
+/-- a new instance of the same class -/
+def renew {κ : Type} (i : Inst κ) : Inst κ := { store := i.store, dflt := i.dflt }
+
+def startCase (name : String) (store : Store) (dflt : Option (List String)) : Option St := do
+  let c ← cfgOf name
+  let s0 : St := { cfg := c }
+  if s0.isHeap then
+    match dflt with
+    | none => pure { s0 with instH := bare store none }
+    | some toks =>
+      let (s1, r) ← buildH s0 toks
+      match r with
+      | .ok refs => pure { s1 with labels := [], instH := bare store (some refs) }
+      | .error _ => none
+  else if s0.isHeapD then
+    match dflt with
+    | none => pure { s0 with instD := bare store none }
+    | some toks =>
+      let (s1, r) ← buildD s0 toks
+      match r with
+      | .ok d => pure { s1 with labels := [], instD := bare store (some d) }
+      | .error _ => none
+  else
+    match dflt with
+    | none => pure { s0 with instV := bare store none }
+    | some toks =>
+      match ← buildV c toks with
+      | .ok coll => pure { s0 with instV := bare store (some coll) }
+      | .error _ => none
+
+/-- element / address arguments of a call on a plain list, as objects -/
+def parseHOp (s : St) (ts : List String) : Option (St × HOp × Bool × Bool) :=
+  let flag (x : List String) : Bool := x == ["1"]
+  match ts with
+  | "with" :: item :: index :: insert :: kwK :: kwA :: if_ :: ip => do
+    let (s, index) ← allocOpt s index; let (s, item) ← allocOpt s item
+    let k ← parseKwK kwK; let a ← parseKwA kwA
+    pure (s, .with_ item index (insert == "1") { k := k, a := a }, if_ == "1", flag ip)
+  | "update" :: voi :: new :: bi :: kwK :: kwA :: if_ :: ip => do
+    let (s, voi) ← allocTok s voi; let (s, new) ← allocOpt s new; let bi ← parseOptBool bi
+    let k ← parseKwK kwK; let a ← parseKwA kwA
+    pure (s, .update voi new bi { k := k, a := a }, if_ == "1", flag ip)
+  | "transform" :: voi :: fn :: bi :: fnK :: fnA :: if_ :: ip => do
+    let (s, voi) ← allocTok s voi; let fn ← fnPool fn; let bi ← parseOptBool bi
+    let fk ← fnKPool fnK; let fa ← fnAPool fnA
+    pure (s, .transform voi fn bi { k := fk, a := fa }, if_ == "1", flag ip)
+  | "without" :: voi :: bi :: if_ :: ip => do
+    let (s, voi) ← allocTok s voi; let bi ← parseOptBool bi
+    pure (s, .without voi bi, if_ == "1", flag ip)
+  | _ => none
+
+/-- the trailing `<inplace>` flag and `@label`s are of no concern to the content model -/
+def contentTokens (ts : List String) : List String :=
+  let n := match ts.head? with
+    | some "without" => 4
+    | _ => 7
+  (ts.take n).map baseTok
 
 def handle (s : St) (line : String) : St × String :=
   match (line.trimAscii.toString.splitOn " ").filter (· ≠ "") with
-  | ["attr", name] =>
-    match cfgOf name with
+  | "attr" :: name :: rest =>
+    let parsed : Option (Store × Option (List String)) :=
+      match rest with
+      | [] => some (.dict, none)
+      | [st, "missing"] => (parseStore st).map fun x => (x, none)
+      | st :: "default" :: toks => (parseStore st).map fun x => (x, some toks)
+      | _ => none
+    match parsed.bind fun (st, d) => startCase name st d with
     | none => (s, "bad-op")
-    | some c => ({ cfg := c, st := none }, "ok ;; missing")
+    | some s' => (s', "ok ;; " ++ s'.shown)
   | "init" :: toks =>
-    match toks.mapM (initOp s.cfg) with
-    | none => (s, "bad-op")
-    | some ops =>
-      let r := ops.foldl (fun (acc : Except Err Coll) op =>
-        match acc with
-        | .error e => .error e
-        | .ok coll => stepColl s.cfg coll op) (.ok (create s.cfg))
-      match r with
-      | .ok coll => ({ s with st := some coll }, "ok ;; " ++ showState (some coll))
-      | .error e => (s, "err " ++ e.name ++ " ;; " ++ showState s.st)
+    -- a new instance: nothing refers to the old objects any more, except the content a computed attribute returns
+    let keep := s.instH.dflt.isSome || s.instD.dflt.isSome
+    let s0 : St := { s with hp := if keep then s.hp else [], labels := [],
+                            instH := renew s.instH, instD := renew s.instD, instV := renew s.instV }
+    if s.isHeap then
+      match buildH s0 toks with
+      | none => (s, "bad-op")
+      | some (s1, .ok refs) =>
+        let s2 := { s1 with instH := s1.instH.write refs }
+        (s2, "ok ;; " ++ s2.shown)
+      | some (s1, .error e) => (s1, "err " ++ e.name ++ " ;; " ++ s1.shown)
+    else if s.isHeapD then
+      match buildD s0 toks with
+      | none => (s, "bad-op")
+      | some (s1, .ok d) =>
+        let s2 := { s1 with instD := s1.instD.write d }
+        (s2, "ok ;; " ++ s2.shown)
+      | some (s1, .error e) => (s1, "err " ++ e.name ++ " ;; " ++ s1.shown)
+    else
+      match buildV s.cfg toks with
+      | none => (s, "bad-op")
+      | some (.ok coll) =>
+        let s2 := { s0 with instV := s0.instV.write coll }
+        (s2, "ok ;; " ++ s2.shown)
+      | some (.error e) => (s0, "err " ++ e.name ++ " ;; " ++ s0.shown)
   | ts =>
-    match parseOp ts with
-    | none => (s, "bad-op")
-    | some (op, if_) =>
-      match helper s.cfg s.st op if_ with
-      | .ok st' => ({ s with st := st' }, "ok ;; " ++ showState st')
-      | .error e => (s, "err " ++ e.name ++ " ;; " ++ showState s.st)
+    if s.isHeap then
+      match parseHOp s ts with
+      | none => (s, "bad-op")
+      | some (s1, op, if_, inplace) =>
+        if !if_ then (s1, "ok ;; " ++ s1.shown)
+        else
+          -- lift with `getattr`, edit (a copy of) the container, store with `setattr`
+          match hSeqHelper s1.cfg s1.hp s1.instH.read.1 op true inplace false with
+          | .ok (hp', some refs') =>
+            let s2 := { s1 with hp := hp', instH := s1.instH.read.2.write refs' }
+            (s2, "ok ;; " ++ s2.shown)
+          | .ok (_, none) => (s1, "bad-op")
+          | .error e => (s1, "err " ++ e.name ++ " ;; " ++ s1.shown)
+    else if s.isHeapD then
+      match parseHOp s ts with
+      | none => (s, "bad-op")
+      | some (s1, op, if_, inplace) =>
+        if !if_ then (s1, "ok ;; " ++ s1.shown)
+        else
+          match hMapHelper s1.cfg s1.hp s1.instD.read.1 op true inplace false with
+          | .ok (hp', some d') =>
+            let s2 := { s1 with hp := hp', instD := s1.instD.read.2.write d' }
+            (s2, "ok ;; " ++ s2.shown)
+          | .ok (_, none) => (s1, "bad-op")
+          | .error e => (s1, "err " ++ e.name ++ " ;; " ++ s1.shown)
+    else
+      match parseOp (contentTokens ts) with
+      | none => (s, "bad-op")
+      | some (op, if_) =>
+        match helperI s.cfg s.instV op if_ with
+        | .ok i' =>
+          let s2 := { s with instV := i' }
+          (s2, "ok ;; " ++ s2.shown)
+        | .error e => (s, "err " ++ e.name ++ " ;; " ++ s.shown)
 
 partial def loop (h : IO.FS.Stream) (out : IO.FS.Stream) (s : St) : IO Unit := do
   let line ← h.getLine
@@ -195,4 +393,4 @@ partial def loop (h : IO.FS.Stream) (out : IO.FS.Stream) (s : St) : IO Unit := d
   loop h out s'
 
 def main : IO Unit := do
-  loop (← IO.getStdin) (← IO.getStdout) { cfg := { fam := .list, item := .int }, st := none }
+  loop (← IO.getStdin) (← IO.getStdout) { cfg := { fam := .list, item := .int } }
